@@ -26,11 +26,11 @@ def contained(topo, ka0, ka1, kb0, exc, su_a, su_b, td_a, td_b, buf, v, color):
     ks = [pick(KINDS, k) for k in (ka0, ka1, kb0)]
     exc = ci(exc, 0, 5)
     buf, color = cb(buf), cb(color)
-    su_a, su_b, td_a, td_b = ci(su_a, 0, 2), ci(su_b, 0, 2), ci(td_a, 0, 2), ci(td_b, 0, 2)     # 0 fine, 1 raises, 2 raises ... from cause
+    su_a, su_b, td_a, td_b = ci(su_a, 0, 3), ci(su_b, 0, 3), ci(td_a, 0, 3), ci(td_b, 0, 3)     # 0 fine, 1 raises, 2 raises ... from cause, 3 a C callable raises (no frame of the layer in the traceback)
     v = ci(v, 0, 3)
     with untraced():
-        A = W.mk_layer('A', (), su=su_a, td={0: 0, 1: 1, 2: 3}[td_a], hooks='st')
-        B = W.mk_layer('B', (A,) if topo else (), su=su_b, td={0: 0, 1: 1, 2: 3}[td_b], hooks='st')
+        A = W.mk_layer('A', (), su=su_a, td={0: 0, 1: 1, 2: 3, 3: 4}[td_a], hooks='st')
+        B = W.mk_layer('B', (A,) if topo else (), su=su_b, td={0: 0, 1: 1, 2: 3, 3: 4}[td_b], hooks='st')
         ta = [W.mk_test('a0', ks[0], exc=exc), W.mk_test('a1', ks[1], exc=exc)]
         tb = [W.mk_test('b0', ks[2], exc=exc)]
     o = RW.options((['-' + 'v' * v] if v else []) + (['--buffer'] if buf else []) + (['-c'] if color else []),
@@ -78,6 +78,8 @@ def oracle(trace, r, topo, ks, su_a, su_b, td_a, td_b, escaped, text):
             if e[2] not in up:
                 return 'tearDown of %s which is not set up' % e[2]
             up.remove(e[2])
+    # a tearDown that is a C callable leaves no event: its attempt is observed through the recorded layer failure below
+    up = [n for n in up if {'A': td_a, 'B': td_b}[n] != 3]
     if up:
         return 'layers never torn down: %r' % up
     n_summary = len([e for e in trace if e[1] == 'summary'])
@@ -112,10 +114,59 @@ def contained_reach(*a):
     return LAST[9] is None and LAST[7] and W.ERR_TD in LAST[1]
 
 
+LB_KINDS = [W.PASS, W.FAIL, W.ERROR, W.XPASS, W.SUBFAIL2]
+
+
+def contained_lb(mode, ka, kb, v):
+    """The same containment when layers run in subprocesses: the whole Runner.run() with loop-back children (resumed after a
+    layer that cannot be torn down, -j2): failures recorded in the parent and failures reported by children end up in the
+    same lists; nothing may abort the run, the parent's layers are torn down and the totals are printed."""
+    global LAST
+    from vt import fullrun as FR
+    mode = pick(['seq', 'nie', 'j2'], mode)
+    ka, kb = pick(LB_KINDS, ka), pick(LB_KINDS, kb)
+    v = ci(v, 0, 2)
+    with untraced():
+        world = FR.World({'a0': W.PASS, 'a1': ka, 'b0': kb, 'b1': kb, 'x0': W.PASS}, td={'A': 2} if mode == 'nie' else {},
+                         order=['b0', 'a0', 'x0', 'b1', 'a1'])
+    res = FR.run(world, mode, argv=['-' + 'v' * v] if v else [])
+    with untraced():
+        why = None
+        ran = sorted({e[2] for e in res.trace if e[1] == 'test'})
+        if res.escaped:
+            why = 'exception %s escaped from Runner.run' % res.escaped
+        elif res.thread_exc:
+            why = 'exception in a runner thread: %r' % (res.thread_exc,)
+        elif ran != ['a0', 'a1', 'b0', 'b1', 'x0']:
+            why = 'tests executed over all processes: %r' % (ran,)
+        elif 'Total: ' not in res.text:
+            why = 'no totals printed'
+        else:
+            for pid in sorted({e[0] for e in res.trace}):
+                up = []
+                for e in res.trace:
+                    if e[0] == pid and e[1] == 'su':
+                        up.append(e[2])
+                    elif e[0] == pid and e[1] == 'td' and e[2] in up:
+                        up.remove(e[2])
+                if up:
+                    why = 'process %d ended with layers never torn down: %r' % (pid, up)
+                    break
+        if why is None and bool(res.failed) != (W.is_bad(ka) or W.is_bad(kb)):
+            why = 'verdict failed=%r' % (res.failed,)
+    LAST = (mode, W.KIND_NAMES[ka], W.KIND_NAMES[kb], v, why, len(res.children))
+    return why is None
+
+
+def contained_lb_reach(*a):
+    contained_lb(*a)
+    return LAST[4] is None and LAST[5] >= 2 and LAST[1] == 'fail' and LAST[2] == 'error'
+
+
 _P = [('topo', 'int'), ('ka0', 'int'), ('ka1', 'int'), ('kb0', 'int'), ('exc', 'int'), ('su_a', 'int'), ('su_b', 'int'),
       ('td_a', 'int'), ('td_b', 'int'), ('buf', 'bool'), ('v', 'int'), ('color', 'bool')]
 _C = ', '.join(n for n, _ in _P)
-_B = ('0 <= su_a <= 2 and 0 <= su_b <= 2 and 0 <= td_a <= 2 and 0 <= td_b <= 2 and 0 <= topo <= 1 and 0 <= ka0 < %d and 0 <= ka1 < %d and 0 <= kb0 < %d and 0 <= exc <= 5 and 0 <= v <= 3' % (NK, NK, NK))
+_B = ('0 <= su_a <= 3 and 0 <= su_b <= 3 and 0 <= td_a <= 3 and 0 <= td_b <= 3 and 0 <= topo <= 1 and 0 <= ka0 < %d and 0 <= ka1 < %d and 0 <= kb0 < %d and 0 <= exc <= 5 and 0 <= v <= 3' % (NK, NK, NK))
 _ONE = ' and (ka0 != 0) + (ka1 != 0) + (kb0 != 0) + (su_a != 0) + (su_b != 0) + (td_a != 0) + (td_b != 0) <= 1'
 _TWO = ' and (ka0 != 0) + (ka1 != 0) + (kb0 != 0) + (su_a != 0) + (su_b != 0) + (td_a != 0) + (td_b != 0) <= 2'
 
@@ -134,7 +185,7 @@ SPEC = {
     'files': ['src/zope/testrunner/runner.py', 'src/zope/testrunner/formatter.py', 'src/zope/testrunner/tb_format.py'],
     'stubs': ['runner.time, runner.gc', 'sys.stdout/sys.stderr -> TextIOWrapper objects over one byte buffer'],
     'assumptions': ['exception classes: ValueError, KeyError, an AssertionError subclass, a custom Exception subclass, a real SyntaxError (location line without ", in"), an exception whose __str__ raises; SystemExit inside tests'],
-    'outside': ['MemoryError / KeyboardInterrupt (deliberately propagated by the runner)', '-D/--pdb', 'children (covered by C02/C07 worlds)',
+    'outside': ['MemoryError / KeyboardInterrupt (deliberately propagated by the runner)', '-D/--pdb', 'transport faults of children (C02/C07 worlds)',
                 'more than 3 tests in 2 layers'],
     'harnesses': [
         {'name': 'contained', 'fn': 'contained', 'params': _P, 'call': _C,
@@ -145,6 +196,13 @@ SPEC = {
          'reach': 'contained_reach', 'reach_bounds': {'quick': _B + _ONE + ' and v == 1 and exc == 0 and topo == 1',
                                                       'thorough': _B + _ONE + ' and v == 1 and exc == 0 and topo == 1'},
          'timeout': {'quick': 240, 'thorough': 850},
-         'fidelity': [_v(), _v(ka0=4, v=3), _v(topo=0, ka0=0, su_a=1, kb0=8, buf=False, v=0), _v(ka0=0, su_b=2), _v(ka0=0, td_a=2, v=2), _v(ka0=2, exc=4, color=True), _v(ka1=13, exc=5)]},
+         'fidelity': [_v(), _v(ka0=4, v=3), _v(topo=0, ka0=0, su_a=1, kb0=8, buf=False, v=0), _v(ka0=0, su_b=2), _v(ka0=0, td_a=2, v=2), _v(ka0=2, exc=4, color=True), _v(ka1=13, exc=5), _v(ka0=0, su_a=3), _v(ka0=0, td_b=3, topo=0)]},
+        {'name': 'contained_lb', 'fn': 'contained_lb', 'params': [('mode', 'int'), ('ka', 'int'), ('kb', 'int'), ('v', 'int')], 'call': 'mode, ka, kb, v',
+         'bounds': {'quick': '0 <= mode <= 2 and 0 <= ka < %d and 0 <= kb < %d and 0 <= v <= 2 and ka <= 2 and kb <= 2 and v <= 1' % (len(LB_KINDS), len(LB_KINDS)),
+                    'thorough': '0 <= mode <= 2 and 0 <= ka < %d and 0 <= kb < %d and 0 <= v <= 2' % (len(LB_KINDS), len(LB_KINDS))},
+         'slices': {'quick': ['mode == %d' % m for m in range(3)], 'thorough': ['mode == %d and v == %d' % (m, vv) for m in range(3) for vv in range(3)]},
+         'reach': 'contained_lb_reach', 'reach_bounds': {'quick': 'mode == 1 and ka == 1 and kb == 2 and v == 0', 'thorough': 'mode == 1 and ka == 1 and kb == 2 and v == 0'},
+         'timeout': {'quick': 300, 'thorough': 850},
+         'fidelity': [dict(mode=1, ka=1, kb=2, v=1), dict(mode=2, ka=3, kb=4, v=0), dict(mode=0, ka=0, kb=0, v=2)]},
     ],
 }
